@@ -30,9 +30,11 @@ def main():
     sets = dict(spc=ec.spc, sbc=ec.sbc, ssc=ec.ssc, smc=ec.smc, mmc=ec.mmc)
     # 1. PERSISTENT RESERVE IN with an unknown service action
     for sname in ("spc", "sbc", "ssc", "smc"):
-        for sa in list(range(4, 40)) + [0x1F, 0x20, 255, 256, 1000, 2 ** 32]:
+        # every value that is not one of the four service actions — also the ones below zero (a table indexed from the end would
+        # accept them) and the ones that are not numbers at all
+        for sa in list(range(4, 40)) + [0x1F, 0x20, 255, 256, 1000, 2 ** 32] + list(range(-40, 0)) + [-255, -256, -2 ** 32, None, "READ_KEYS", "0", ()]:
             s, dev = facade(sets[sname])
-            out.append(attempt("prin %s sa=%d" % (sname, sa), "ValueError", lambda: s.persistentreservein(sa), dev))
+            out.append(attempt("prin %s sa=%r" % (sname, sa), "ValueError", lambda: s.persistentreservein(sa), dev))
     # 2. block transfers without a block size
     data = bytearray(512)
     for sname in ("sbc",):
